@@ -64,6 +64,18 @@ Inductive cond :=
 | COpaque (n : nat)                 (* data-dependent condition, not interpreted *)
 | CNot (c : cond) | CAnd (a b : cond) | COr (a b : cond).
 
+(* round 5: the data loaders handed to Trainer.fit.  `steps` = the expression the trainer passes as the loader's
+   `steps_per_epoch` (its explicit length): the loader-size parameters of the configuration (batch size smaller than,
+   equal to or LARGER than the number of samples) enter the run through it. *)
+Inductive lkind := LTrain | LVal.   (* the train loader, the validation loader *)
+Inductive steps :=
+| StConfig                   (* trainer_config.steps_per_epoch: None or a positive number *)
+| StFloorDiv                 (* len(dataset) // batch_size *)
+| StConst (k : nat)
+| StDefault                  (* no explicit value: the loader's own length, ceil(len(dataset) / batch_size) *)
+| StAtLeast1 (s : steps)     (* s if s != 0 else 1   /   max(1, s)   /   if s == 0: s = 1 *)
+| StIfNone (a d : steps).    (* if a is None: a = d *)
+
 Inductive atom :=
 | AReload                           (* self.config := a configuration that may contain the key *)
 | AMask                             (* self.config.trainer_config.wandb.api_key = "" *)
@@ -78,9 +90,10 @@ Inductive atom :=
                                        step (dataset constructor with np_chunks / the get_bin_files subprocess) or
                                        are read by it (re-used chunks: the step fails if they are absent) *)
 | ARaise                            (* explicit `raise` statement (input validation) *)
-| ACall (id : nat).                 (* an external call with no modelled effect on files: a point where an
+| ACall (id : nat)                  (* an external call with no modelled effect on files: a point where an
                                        external exception may strike.  id 0 = the return of Trainer.fit,
                                        id 1 = wandb.login(key=<the stashed key>) *)
+| ALoader (k : lkind) (s : steps).  (* round 5: a data loader is built with explicit length s; no effect on files *)
 
 Inductive eff :=
 | Skip
@@ -516,6 +529,59 @@ Definition completes_under (excuse : (flag -> bool) -> bool) (p : eff) : bool :=
 Definition completes (p : eff) : bool := completes_under no_excuse p.
 Definition completes_unless_F15 (p : eff) : bool := completes_under sel_F15 p.
 
+(* (6') round 5: no data loader handed to Trainer.fit is EMPTY.  A loader whose explicit length is 0 makes Lightning
+   skip that loop: a validation loader of length 0 never logs `val_loss`, and whatever monitors it (the top-k
+   ModelCheckpoint, EarlyStopping, ReduceLROnPlateau) raises inside fit or leaves no best checkpoint — the run
+   does not "complete without error".  `ACall 0` (fit returns normally) therefore PRESUMES non-empty loaders; this
+   checker discharges the presumption for a term: every loader expression in it is positive for EVERY dataset size
+   n >= 1, batch size b >= 1 and configured steps (None or >= 1), and every valid cell that ends Ok built a train and
+   a validation loader before fit. *)
+Fixpoint steps_val (s : steps) (cfg : option nat) (n b : nat) : option nat :=
+  match s with
+  | StConfig => cfg
+  | StFloorDiv => Some (n / b)
+  | StConst k => Some k
+  | StDefault => None
+  | StAtLeast1 a => match steps_val a cfg n b with Some 0 => Some 1 | x => x end
+  | StIfNone a d => match steps_val a cfg n b with None => steps_val d cfg n b | x => x end
+  end.
+
+(* length of a loader built with explicit length v over n samples in batches of b (CyclerDataLoader.__len__) *)
+Definition loader_len (v : option nat) (n b : nat) : nat :=
+  match v with Some k => k | None => (n + b - 1) / b end.
+
+Fixpoint may_be_zero (s : steps) : bool :=
+  match s with
+  | StFloorDiv => true
+  | StConst k => Nat.eqb k 0
+  | StConfig | StDefault | StAtLeast1 _ => false
+  | StIfNone a d => may_be_zero a || may_be_zero d
+  end.
+
+Definition loader_ok (a : atom) : bool :=
+  match a with ALoader _ s => negb (may_be_zero s) | _ => true end.
+
+Fixpoint loaders_ok (p : eff) : bool :=
+  match p with
+  | Skip => true
+  | Do a => loader_ok a
+  | Seq a b | If _ a b | Try a _ b => loaders_ok a && loaders_ok b
+  | Loop _ b => loaders_ok b
+  end.
+
+Definition is_loader (k : lkind) (a : atom) : bool :=
+  match a, k with
+  | ALoader LTrain _, LTrain | ALoader LVal _, LVal => true
+  | _, _ => false
+  end.
+
+Fixpoint before_fit (tr : list atom) : list atom :=
+  match tr with
+  | [] => []
+  | ACall 0 :: _ => []
+  | a :: r => a :: before_fit r
+  end.
+
 (* (7) structural sanity check (no theorem attached): the observable part of the trace is a
    function of the named flags, so that the harness can compare it with a real run — every
    atom other than a declared mutation or an explicit rejection sits outside opaque
@@ -678,6 +744,14 @@ Definition cell_completes (p : eff) (c : cell) : bool :=
 Definition valid_cells_complete (p : eff) : bool :=
   forallb (fun c => implb (valid_cell (cell_flags c)) (outcome_ok (result (cenv p c None) p))) all_cells.
 
+(* round 5: every valid cell that ends Ok has built a train AND a validation loader before Trainer.fit *)
+Definition loaders_built (p : eff) : bool :=
+  forallb (fun c => implb (valid_cell (cell_flags c) && outcome_ok (result (cenv p c None) p))
+     (let pre := before_fit (trace (cenv p c None) p) in
+      existsb (is_loader LTrain) pre && existsb (is_loader LVal) pre)) all_cells.
+
+Definition loader_steps_contract (p : eff) : bool := loaders_ok p && loaders_built p.
+
 Definition first_failing_cell (p : eff) : option cell :=
   find (fun c => valid_cell (cell_flags c) && negb (cell_completes p c)) all_cells.
 
@@ -781,10 +855,14 @@ Definition reference (fixed14 fixed15 : bool) : eff :=
        re-use, read) npz chunks when `self.np_chunks` — np framework, or in-memory framework after the fallback *)
     If (CFlag FwLitdata)
        (block [If (CFlag UseExisting) Skip (block [Do (AMkChunks RmLitTrain); Do (AMkChunks RmLitVal)]);
-               Do (AMkChunks RmLitTrain); Do (AMkChunks RmLitVal)])
+               Do (AMkChunks RmLitTrain); Do (AMkChunks RmLitVal);
+               Do (ALoader LTrain StDefault); Do (ALoader LVal StDefault)])      (* StreamingDataLoader *)
        (If (COr (CFlag FwTorch) (CFlag FwNpChunks))
-           (If (COr (CFlag FwNpChunks) (CAnd (CFlag FwTorch) (CFlag MemFallback)))
-               (block [Do (AMkChunks RmTrain); Do (AMkChunks RmVal)]) Skip)
+           (block [If (COr (CFlag FwNpChunks) (CAnd (CFlag FwTorch) (CFlag MemFallback)))
+                      (block [Do (AMkChunks RmTrain); Do (AMkChunks RmVal)]) Skip;
+                   (* round 5: CyclerDataLoader(steps_per_epoch = configured, or when None len // batch, at least 1) *)
+                   Do (ALoader LTrain (StIfNone StConfig (StAtLeast1 StFloorDiv)));
+                   Do (ALoader LVal (StAtLeast1 StFloorDiv))])
            (Do ARaise));
     If (COpaque 8) (If (COpaque 9) Skip (Do ARaise)) Skip;    (* unknown profiler name *)
     (* Trainer.fit: the ModelCheckpoint(save_top_k, save_last) callback exists iff save_ckpt; it writes a top-k
